@@ -68,7 +68,8 @@ def repr_def(rng, did, n=None, repr_=None, anchored=None, kinds="mixed", generic
                 # the limits of the type themselves: MAX on the last variant (nothing follows it), MIN on the first
                 # (only where the value fits the specification's integers: narrow reprs, or relative to the anchor)
                 fits = (repr_ in NARROW) or anchored
-                if fits and i == n - 1 and _ == 0 and rng.random() < 0.2 and (not anchored or "MAX" in anchor_rs) and hi not in used:
+                # (never where a carrier variant for a generic parameter may still be appended after the last one)
+                if fits and generics == "none" and not for_disc and i == n - 1 and _ == 0 and rng.random() < 0.2 and (not anchored or "MAX" in anchor_rs) and hi not in used:
                     cur = hi
                     break
                 if fits and i == 0 and _ == 0 and lo < 0 and rng.random() < 0.2 and (not anchored or "MIN" in anchor_rs):
